@@ -106,7 +106,7 @@ def jobs(tier, seed, excluded=()):
         big = ["T06", "T07"]
         budget, nparts, tmo = 70, 1, 60
     else:
-        big = ["T01", "T02", "T03", "T04", "T05", "T06", "T07", "T08", "T09", "T10", "T11", "T12", "T15"]
+        big = ["T01", "T02", "T03", "T04", "T05", "T06", "T07", "T08", "T09", "T10", "T11", "T12", "T15"] + ["R%d" % (1000 * seed + j) for j in range(8)]
         budget, nparts, tmo = 900, 3, 400
     for tid in etrees + big:
         slots = ST.layout(tid)
